@@ -1,7 +1,7 @@
 (* Entry points evaluated by the generated Run/Cases_*.v files. *)
 From Coq Require Import ZArith QArith Qcanon List Bool.
 From Coq Require PrimFloat.
-From RV Require Import Base.Num Base.Vec Expr Rows Ocp Mech.Grid Mech.Intg Mech.Sampling Mech.Shooting Mech.Colloc Inst.
+From RV Require Import Base.Num Base.Vec Expr Rows Ocp Mech.Grid Mech.Intg Mech.Sampling Mech.Shooting Mech.Colloc Mech.Sample Inst.
 Import ListNotations.
 
 Section Conv.
@@ -50,6 +50,26 @@ Definition run_any (oc : ocp) (pq : point Q) :=
   | _ => run_shooting oc pq
   end.
 
+(* symbolic sampling: specs are (grid code, entries); grid codes 0 control, 1 control-,
+   2 integrator, 3 integrator_roots *)
+Definition lists_any (oc : ocp) (pt : point F) : mlists F :=
+  match m_kind (o_method oc) with
+  | DC => dc_lists oc pt
+  | SS => lists_of oc pt true
+  | MS => lists_of oc pt false
+  end.
+
+Definition run_samples (oc : ocp) (specs : list (nat * list expr)) (vals : list pexpr) (pq : point Q) :=
+  let pt := point_of_Q pq in
+  let L := lists_any oc pt in
+  (map (fun s => match fst s with
+                 | 0%nat => sample_control L (snd s) true
+                 | 1%nat => sample_control L (snd s) false
+                 | 2%nat => sample_integrator L (snd s)
+                 | _ => sample_roots L (length (m_tau (o_method oc))) (snd s)
+                 end) specs,
+   map (value_of L) vals).
+
 (* collocation coefficients computed from the collocation points *)
 Definition run_coeffs (tauq : list Q) :=
   let tau := map of_Q tauq in (coeff_C tau, coeff_D tau, coeff_B tau).
@@ -57,6 +77,7 @@ End Conv.
 
 Definition run_shooting_float := @run_any _ FloatOps.
 Definition run_coeffs_float := @run_coeffs _ FloatOps.
+Definition run_samples_float := @run_samples _ FloatOps.
 Definition qc_out (q : Qc) : Z * positive := (Qnum (this q), Qden (this q)).
 
 Definition q (n : Z) (d : positive) : Q := Qmake n d.
